@@ -238,10 +238,10 @@ pub struct Meta {
 }
 
 impl Meta {
-    fn to_json(&self) -> Value {
+    pub fn to_json(&self) -> Value {
         json!({"consts": self.consts, "slots": self.slots, "optimized": self.optimized})
     }
-    fn from_json(v: &Value) -> Meta {
+    pub fn from_json(v: &Value) -> Meta {
         Meta {
             consts: v["consts"].as_array().map(|a| a.iter().filter_map(|x| x.as_i64()).collect()).unwrap_or_default(),
             slots: v["slots"]
